@@ -8,10 +8,11 @@ import (
 )
 
 // dns17: the 17 s DNS rule in real time on real sockets (thorough tier).
-//   client 1: two DNS queries (no fast close), answers at ~0 s, ~8 s and ~16 s after the last query must be relayed,
-//             the association must still exist then and be gone by 17 s + bound
-//   client 2: one DNS query + one answer from port 53 -> fast close
-//   client 3: one non-DNS datagram -> gone after natTimeout (300 ms) although the DNS associations live on
+//
+//	client 1: two DNS queries (no fast close), answers at ~0 s, ~8 s and ~16 s after the last query must be relayed,
+//	          the association must still exist then and be gone by 17 s + bound
+//	client 2: one DNS query + one answer from port 53 -> fast close
+//	client 3: one non-DNS datagram -> gone after natTimeout (300 ms) although the DNS associations live on
 func dns17Main(out, sum string, seed int64) {
 	rng := rand.New(rand.NewSource(seed))
 	w := newWorld(rng, false)
